@@ -1397,6 +1397,16 @@ func TestFast(t *testing.T) {
 			}
 			if len(req) > 0 {
 				omitID = rapid.SampledFrom(req).Draw(rt, "omit")
+				// bookkeeping of required fields is done in words of bits: the last required
+				// field (highest id, and last declared) is the boundary case
+				if rapid.Bool().Draw(rt, "omitlast") {
+					omitID = req[len(req)-1]
+					for _, id := range req {
+						if rapid.Bool().Draw(rt, "byid") && id > omitID {
+							omitID = id
+						}
+					}
+				}
 				modes = append(modes, "omit_required")
 			}
 			modes = append(modes, "sweep")
